@@ -37,12 +37,23 @@ end Canine.Rns
 namespace Canine.Rns
 open Bank
 
-/-- No message changes the configuration part of the state. -/
-theorem step_cfg {s s' : State} {h : Int} {op : Op} (hstep : step s h op = some s') :
-    s'.moduleAcc = s.moduleAcc ∧ s'.polAcc = s.polAcc ∧ s'.blocked = s.blocked := by
+/-- a successful step passed `ValidateBasic`, its signer parsed to the canonical address `cc`,
+and the handler succeeded -/
+theorem step_some {s s' : State} {h : Int} {op : Op} (hstep : step s h op = some s') :
+    ∃ cc, validateBasic op = true ∧ acct s op.creator = some cc ∧ handle s h cc op = some s' := by
   unfold step at hstep
   split at hstep
-  case isFalse => simp at hstep
+  · rename_i hv
+    simp only [Option.bind_eq_some_iff] at hstep
+    obtain ⟨cc, hcc, hh⟩ := hstep
+    simp only [Bool.and_eq_true] at hv
+    exact ⟨cc, hv.1, hcc, hh⟩
+  · simp at hstep
+
+/-- No message changes the configuration part of the state. -/
+theorem step_cfg {s s' : State} {h : Int} {op : Op} (hstep : step s h op = some s') :
+    s'.moduleAcc = s.moduleAcc ∧ s'.polAcc = s.polAcc ∧ s'.blocked = s.blocked ∧ s'.canon = s.canon := by
+  obtain ⟨cc, -, hcc, hstep⟩ := step_some hstep
   cases op with
   | register c raw n dta y p =>
     simp only [handle, register, bind, Option.bind_eq_some_iff, req_eq_some] at hstep
@@ -59,7 +70,7 @@ theorem step_cfg {s s' : State} {h : Int} {op : Op} (hstep : step s h op = some 
     simp only [Option.some.injEq] at hs; subst hs; simp
   | buy c raw n =>
     simp only [handle, buy, bind, Option.bind_eq_some_iff, req_eq_some] at hstep
-    obtain ⟨sale, -, ⟨nm, tld⟩, -, w, -, _, -, _, -, _, -, pr, -, coins, -, b1, hb1, b2, hb2, hs⟩ := hstep
+    obtain ⟨sale, -, ⟨nm, tld⟩, -, w, -, _, -, _, -, _, -, seller, hseller, pr, -, coins, -, b1, hb1, b2, hb2, hs⟩ := hstep
     simp only [Option.some.injEq] at hs; subst hs; simp
   | bid c raw n pr p =>
     simp only [handle, bid, bind, Option.bind_eq_some_iff] at hstep
@@ -100,7 +111,7 @@ theorem step_cfg {s s' : State} {h : Int} {op : Op} (hstep : step s h op = some 
 
 theorem stepT_cfg (s : State) (h : Int) (op : Op) :
     (stepT s h op).moduleAcc = s.moduleAcc ∧ (stepT s h op).polAcc = s.polAcc ∧
-    (stepT s h op).blocked = s.blocked := by
+    (stepT s h op).blocked = s.blocked ∧ (stepT s h op).canon = s.canon := by
   unfold stepT
   cases hs : step s h op with
   | none => simp
